@@ -43,6 +43,7 @@ FINDINGS.update({
     "C08-bucket-misses-update": "SaveFunction does not tell the built field buckets about a modified treasure: the accelerated route serves it under its old field value",
     "C08-bucket-misses-delete": "deleteHandler does not tell the built field buckets: the accelerated route still serves the deleted treasure",
     "C08-bucket-build-drops-pending": "mutations that arrive while a bucket build is in flight are not replayed by DrainPending",
+    "C08-bucket-notified-before-add": "SaveFunction tells the buckets about a new key before the record is in beaconKey: a bucket build that starts in between snapshots without the record and has no notification in its buffer",
     "C08-bucket-served-before-drain": "a field bucket is EqualityInitialized as soon as BuildEquality returns, before its builder drained the pending buffer: a reader that comes in that window is served without the saves/deletes that completed meanwhile",
 })
 FINDINGS["C08-window-on-key-index"] = ("with the key index and a time window the scan route ignores the window (findInKeyBeacon) while "
